@@ -132,6 +132,7 @@ type backendRec struct {
 	Conn    int      `json:"conn"` // connection (peer address) numbered by first appearance within the case
 	Err     string   `json:"err,omitempty"`
 	peer    string
+	callID  string
 	done    chan struct{}
 }
 
@@ -146,9 +147,16 @@ type backend struct {
 
 var (
 	curScript atomic.Value // *scriptBytes
-	recMu     sync.Mutex
-	recs      []*backendRec
+	// parScripts: the scripts of calls that run concurrently (step "par"), by the value of their
+	// metadata key callIDKey
+	parScripts sync.Map // string -> *scriptBytes
+	recMu      sync.Mutex
+	recs       []*backendRec
 )
+
+// callIDKey is the custom metadata key by which concurrent calls of a "par" step are told apart on the
+// backend side (it is ordinary custom metadata of the call and is judged like every other key).
+const callIDKey = "x-call"
 
 type scriptBytes struct {
 	s       *Script
@@ -183,7 +191,16 @@ func (b *backend) handle(_ interface{}, ss grpc.ServerStream) error {
 	recMu.Lock()
 	recs = append(recs, rec)
 	recMu.Unlock()
-	sb, _ := curScript.Load().(*scriptBytes)
+	var sb *scriptBytes
+	if ids := md[callIDKey]; len(ids) == 1 {
+		rec.callID = ids[0]
+		if v, ok := parScripts.Load(ids[0]); ok {
+			sb = v.(*scriptBytes)
+		}
+	}
+	if sb == nil {
+		sb, _ = curScript.Load().(*scriptBytes)
+	}
 	if sb == nil {
 		return status.Error(codes.FailedPrecondition, "harness: no script")
 	}
@@ -292,10 +309,10 @@ var (
 )
 
 // callConfigs: the configurations the call stream runs the proxy under. 0 = the defaults of config/default.go
-// (proxyConfig); 1 = every duration option of config.Proxy short (the property is about every call, whatever
+// (proxyConfig); 2 = matcher iprefix, glob matching disabled, strategy rr; 1 = every duration option of config.Proxy short (the property is about every call, whatever
 // timeouts the operator configured for the proxy: none of them may cut a healthy gRPC call), found by
 // reflection over the repo's own type so that an option added later is covered as well.
-const callConfigs = 2
+const callConfigs = 3
 
 const shortOption = 120 * time.Millisecond
 
@@ -309,6 +326,13 @@ func callConfig(v int) *config.Config {
 				f.SetInt(int64(shortOption))
 			}
 		}
+	}
+	if v == 2 {
+		// the other routing options the interceptor hands to Table.Lookup: case-insensitive prefix matcher,
+		// host globbing off, round-robin picker
+		cfg.Proxy.Matcher = "iprefix"
+		cfg.Proxy.Strategy = "rr"
+		cfg.GlobMatchingDisabled = true
 	}
 	return cfg
 }
@@ -430,6 +454,9 @@ type CallStep struct {
 	// PauseMS: the caller waits that long before it sends its last message (before it closes its side when it
 	// has none): a slow upload
 	PauseMS int `json:"pause_ms,omitempty"`
+	// Calls (op "par"): calls that run concurrently, each with its own script; every one carries a distinct
+	// value of the metadata key callIDKey
+	Calls []CallStep `json:"calls,omitempty"`
 }
 
 type CallCase struct {
@@ -465,6 +492,8 @@ type callObs struct {
 	PathOK  bool         `json:"path_ok"`
 	Path    string       `json:"path"`
 	Oracle  []oracleHost `json:"oracle,omitempty"`
+	// op "par": one observation per concurrent call
+	Calls []*callObs `json:"calls,omitempty"`
 }
 
 // oracleLookup asks the real table which targets a request with this host and path may be sent to (the
@@ -507,9 +536,22 @@ func unhexAll(hs []string) ([][]byte, error) {
 	return out, nil
 }
 
-func (r *rig) doCall(st *CallStep, connIDs map[string]int) (*callObs, error) {
+// prepared is a call ready to be made: decoded metadata, messages and script, and the oracle part of its
+// observation.
+type prepared struct {
+	st   *CallStep
+	md   metadata.MD
+	msgs [][]byte
+	sb   *scriptBytes
+	o    *callObs
+}
+
+func (r *rig) prepare(st *CallStep) (*prepared, error) {
 	if st.Script == nil {
 		st.Script = &Script{Mode: "drain"}
+	}
+	if !strings.HasPrefix(st.Method, "/") || strings.Count(st.Method, "/") < 2 {
+		return nil, fmt.Errorf("method must look like /service/method")
 	}
 	md, err := pairsMD(st.MD)
 	if err != nil {
@@ -535,8 +577,6 @@ func (r *rig) doCall(st *CallStep, connIDs map[string]int) (*callObs, error) {
 	if st.PauseMS < 0 || st.PauseMS > 2000 || st.Script.DelayMS < 0 || st.Script.DelayMS > 2000 {
 		return nil, fmt.Errorf("bad pause")
 	}
-	curScript.Store(sb)
-
 	o := &callObs{Op: "call"}
 	// oracle: what the table answers for the empty host and for every dsthost value
 	if u, err := url.ParseRequestURI(st.Method); err == nil {
@@ -549,16 +589,12 @@ func (r *rig) doCall(st *CallStep, connIDs map[string]int) (*callObs, error) {
 			}
 		}
 	}
+	return &prepared{st: st, md: md, msgs: msgs, sb: sb, o: o}, nil
+}
 
-	before := make([]int64, len(r.backends))
-	for i, b := range r.backends {
-		before[i] = atomic.LoadInt64(&b.hits)
-	}
-	nr0 := r.noRoute.Value()
-	recMu.Lock()
-	recs = nil
-	recMu.Unlock()
-
+// exchange makes the call as the caller and records what the caller saw.
+func (r *rig) exchange(p *prepared) {
+	st, md, msgs, sb := p.st, p.md, p.msgs, p.sb
 	ctx, cancel := context.WithTimeout(metadata.NewOutgoingContext(context.Background(), md), 10*time.Second)
 	defer cancel()
 	saw := &callerSaw{Msgs: []string{}}
@@ -627,9 +663,11 @@ func (r *rig) doCall(st *CallStep, connIDs map[string]int) (*callObs, error) {
 		s := status.Convert(finalErr)
 		saw.Code, saw.Message = int(s.Code()), s.Message()
 	}
-	o.Caller = saw
+	p.o.Caller = saw
+}
 
-	// what the backends saw
+// takeRecs returns what the backends recorded since the last reset, after their handlers have returned.
+func takeRecs() []*backendRec {
 	recMu.Lock()
 	rs := recs
 	recMu.Unlock()
@@ -640,22 +678,142 @@ func (r *rig) doCall(st *CallStep, connIDs map[string]int) (*callObs, error) {
 			rec.Err = "handler still running"
 		}
 	}
+	return rs
+}
+
+func resetRecs() {
+	recMu.Lock()
+	recs = nil
+	recMu.Unlock()
+}
+
+func numberConn(rec *backendRec, connIDs map[string]int) {
+	key := fmt.Sprintf("%d/%s", rec.Idx, rec.peer)
+	id, ok := connIDs[key]
+	if !ok {
+		id = len(connIDs)
+		connIDs[key] = id
+	}
+	rec.Conn = id
+}
+
+func (r *rig) doCall(st *CallStep, connIDs map[string]int) (*callObs, error) {
+	p, err := r.prepare(st)
+	if err != nil {
+		return nil, err
+	}
+	curScript.Store(p.sb)
+	o := p.o
+	before := make([]int64, len(r.backends))
+	for i, b := range r.backends {
+		before[i] = atomic.LoadInt64(&b.hits)
+	}
+	nr0 := r.noRoute.Value()
+	resetRecs()
+
+	r.exchange(p)
+
+	// what the backends saw
+	rs := takeRecs()
 	for i, b := range r.backends {
 		o.Hits = append(o.Hits, atomic.LoadInt64(&b.hits)-before[i])
 	}
 	if len(rs) > 0 {
-		rec := rs[0]
-		key := fmt.Sprintf("%d/%s", rec.Idx, rec.peer)
-		id, ok := connIDs[key]
-		if !ok {
-			id = len(connIDs)
-			connIDs[key] = id
-		}
-		rec.Conn = id
-		o.Backend = rec
+		numberConn(rs[0], connIDs)
+		o.Backend = rs[0]
 	}
 	o.NoRoute = int(r.noRoute.Value() - nr0)
 	return o, nil
+}
+
+// doPar runs the calls of a "par" step concurrently (released together), each with its own script, and
+// attributes what the backends recorded to the calls by the value of the metadata key callIDKey.
+func (r *rig) doPar(st *CallStep, connIDs map[string]int) (*callObs, error) {
+	if len(st.Calls) == 0 || len(st.Calls) > 8 {
+		return nil, fmt.Errorf("par: 1..8 calls")
+	}
+	ps := make([]*prepared, len(st.Calls))
+	ids := make([]string, len(st.Calls))
+	seen := map[string]bool{}
+	for i := range st.Calls {
+		p, err := r.prepare(&st.Calls[i])
+		if err != nil {
+			return nil, err
+		}
+		v := p.md[callIDKey]
+		if len(v) != 1 || v[0] == "" || seen[v[0]] {
+			return nil, fmt.Errorf("par: every call needs its own %s value", callIDKey)
+		}
+		seen[v[0]] = true
+		ps[i], ids[i] = p, v[0]
+	}
+	for i, p := range ps {
+		parScripts.Store(ids[i], p.sb)
+	}
+	defer func() {
+		for _, id := range ids {
+			parScripts.Delete(id)
+		}
+	}()
+	curScript.Store((*scriptBytes)(nil))
+	nr0 := r.noRoute.Value()
+	resetRecs()
+
+	var wg sync.WaitGroup
+	start := make(chan struct{})
+	for _, p := range ps {
+		wg.Add(1)
+		go func(p *prepared) {
+			defer wg.Done()
+			<-start
+			r.exchange(p)
+		}(p)
+	}
+	close(start)
+	wg.Wait()
+
+	rs := takeRecs()
+	out := &callObs{Op: "par"}
+	for i, p := range ps {
+		o := p.o
+		o.Hits = make([]int64, len(r.backends))
+		for _, rec := range rs {
+			if rec.callID == ids[i] {
+				if rec.Idx >= 0 && rec.Idx < len(o.Hits) {
+					o.Hits[rec.Idx]++
+				}
+				if o.Backend == nil {
+					numberConn(rec, connIDs)
+					o.Backend = rec
+				}
+			}
+		}
+		out.Calls = append(out.Calls, o)
+	}
+	// the no-route counter is shared: it must have moved once per call the proxy itself answered "no route found"
+	byProxy := func(o *callObs) bool {
+		return o.Backend == nil && o.Caller.Code == int(codes.NotFound) && o.Caller.Message == "no route found"
+	}
+	answered := 0
+	for _, o := range out.Calls {
+		if byProxy(o) {
+			answered++
+		}
+	}
+	if delta := int(r.noRoute.Value() - nr0); delta == answered {
+		for _, o := range out.Calls {
+			if byProxy(o) {
+				o.NoRoute = 1
+			}
+		}
+	}
+	// a record that belongs to none of the calls: somebody was called who should not have been
+	for _, rec := range rs {
+		if !seen[rec.callID] {
+			out.NoRoute = -1
+		}
+	}
+	return out, nil
 }
 
 // placeholder of backend i in generated scripts
@@ -755,10 +913,13 @@ func runCall(raw json.RawMessage) (interface{}, error) {
 				return nil, err
 			}
 			out = append(out, o)
-		case "call":
-			if !strings.HasPrefix(st.Method, "/") || strings.Count(st.Method, "/") < 2 {
-				return nil, fmt.Errorf("method must look like /service/method")
+		case "par":
+			o, err := r.doPar(st, connIDs)
+			if err != nil {
+				return nil, err
 			}
+			out = append(out, o)
+		case "call":
 			o, err := r.doCall(st, connIDs)
 			if err != nil {
 				return nil, err
@@ -777,7 +938,7 @@ var (
 	callHosts   = []string{"", "", "", "beta.example", "a.example"}
 	callPaths   = []string{"/", "/svc.A", "/svc.A/", "/svc.A/M", "/svc.B", "/pkg.Echo/Bidi"}
 	callMethods = []string{"/svc.A/M", "/svc.A/M", "/svc.A/Other", "/svc.B/X", "/pkg.Echo/Bidi", "/none.Svc/M",
-		"/svc.AB/M", "/grpc.health.v1.Health/Check"}
+		"/svc.AB/M", "/grpc.health.v1.Health/Check", "/SVC.a/M", "/svc.a/other"}
 	oddMethods = []string{"/svc.A/M%41", "/svc.A/M?x=1", "/svc.B/%zz", "/svc.A/M#frag", "/svc.A//M", "/svc.B/X Y", "/svc.A/é"}
 	mdKeys     = []string{"x-a", "x-a", "x-b", "k-bin", "authorization", "trace", "x-req-id", "x.dot_key-1"}
 	mdVals     = []string{"1", "v", "two words", "a,b", "100%", "Bearer abc.def==", "ünïcode-no", "", "tab\there"}
@@ -974,6 +1135,16 @@ func aimCall(st *CallStep, src string) {
 	st.MD = md
 }
 
+func dropKey(md [][]string, k string) [][]string {
+	var out [][]string
+	for _, kv := range md {
+		if len(kv) == 2 && kv[0] != k {
+			out = append(out, kv)
+		}
+	}
+	return out
+}
+
 func genCall(r *hx.Rand, i int) interface{} {
 	c := CallCase{Cfg: r.Intn(callConfigs)}
 	tb, aim := genCallTable(r)
@@ -983,6 +1154,26 @@ func genCall(r *hx.Rand, i int) interface{} {
 		if r.Chance(1, 5) {
 			tb, aim = genCallTable(r)
 			c.Steps = append(c.Steps, tb)
+		}
+		if r.Chance(1, 4) {
+			// calls that are in flight together: each must be routed and relayed as if it were alone
+			par := CallStep{Op: "par"}
+			m := r.Range(2, 5)
+			for x := 0; x < m; x++ {
+				st := genCallStep(r)
+				if aim != "" && r.Chance(1, 2) {
+					aimCall(&st, aim)
+					aim = ""
+				}
+				if x > 0 && r.Chance(1, 4) {
+					// the same route as a call before: several streams on one pooled connection
+					st.Method, st.MD = par.Calls[x-1].Method, dropKey(par.Calls[x-1].MD, callIDKey)
+				}
+				st.MD = append(dropKey(st.MD, callIDKey), []string{callIDKey, fmt.Sprintf("c%d", x)})
+				par.Calls = append(par.Calls, st)
+			}
+			c.Steps = append(c.Steps, par)
+			continue
 		}
 		st := genCallStep(r)
 		if aim != "" && r.Chance(2, 3) {
